@@ -319,6 +319,10 @@ def run(ctx):
     from .c02 import check_cube_header_pair
 
     check_cube_header_pair(ctx, "R9")
+    ctx.rule("R10", "WFX: the gradient section is written as dE/dR in atomic units, as the reader takes it (no sign or role change on the way)", "forces written where gradients are read: the sign flips on every conversion to WFX")
+    from .c02 import check_wfx_field_sources
+
+    check_wfx_field_sources(ctx, "R10")
     ctx.rule("R5", "cell vectors and grid step vectors are scaled along the right axis", "each cell vector is multiplied by the point count of another axis: the loaded cell differs from the same system in another format")
     from .indexmaps import check_index_maps
 
